@@ -275,6 +275,12 @@ partial def loop (h : IO.FS.Stream) : IO Unit := do
     | .ok tr => IO.println ("ok " ++ ",".intercalate tr)
     | .err e => IO.println s!"err {e}"
     | .panic p => IO.println s!"panic {p}"
+  | ["inccut", cut, hex] =>
+    -- the incremental API on a stream that ends inside the raw element: an error (never a finished game, `local_parseEvent`)
+    match incRun ((parseHex hex).take cut.toNat!) with
+    | .ok tr => IO.println ("ok " ++ ",".intercalate tr)
+    | .err e => IO.println s!"err {e}"
+    | .panic p => IO.println s!"panic {p}"
   | ["norm", cps] =>
     match toNormalized ((cps.splitOn ",").map String.toNat!) with
     | .ok l => IO.println ("ok " ++ ",".intercalate (l.map toString))
